@@ -8,7 +8,7 @@
    stack / store / number of steps.  Axioms: only those of the real-number
    library that Flocq (binary64 floats) depends on. *)
 From Coq Require Import ZArith List Bool FMapPositive.
-From GV Require Import Base.W64 Lua.Syntax Lua.Value Lua.Machine Lua.Meta.
+From GV Require Import Base.W64 Lua.Syntax Lua.Value Lua.Machine Lua.Meta Lua.Wf.
 Import ListNotations.
 Open Scope Z_scope.
 
@@ -91,3 +91,19 @@ Theorem C01_steps_compose : forall n m c,
   steps (n + m) c = match steps n c with inl c' => steps m c' | inr f => inr f end.
 Proof. exact steps_plus. Qed.
 Print Assumptions C01_steps_compose.
+
+(* wf_cfg: every variable occurring anywhere in a configuration (control, frames, label
+   tables, closures, saved coroutine stacks) denotes an allocated cell.  Preserved by
+   every step; holds for every configuration reachable from the start of any program. *)
+Theorem C01_wf_preserved_by_step : forall c, wf c -> res_wf (step c).
+Proof. exact step_wf. Qed.
+Print Assumptions C01_wf_preserved_by_step.
+
+Theorem C01_wf_preserved_by_steps : forall m c c', wf c -> steps m c = inl c' -> wf c'.
+Proof. exact steps_wf. Qed.
+Print Assumptions C01_wf_preserved_by_steps.
+
+Theorem C01_reachable_configurations_wf : forall body args m c,
+  steps m (init_cfg body args) = inl c -> wf c.
+Proof. exact reachable_wf. Qed.
+Print Assumptions C01_reachable_configurations_wf.
